@@ -126,6 +126,17 @@ fn check_ring(name: &str, r: &RingBuffer, model: &VecDeque<u8>) -> Result<(), St
     if cap > 0 && r.len() + r.free() + 1 != cap {
         return Err(format!("{name}: len {} + free {} + 1 != cap {cap}", r.len(), r.free()));
     }
+    // the read-only accessor (not used by the decoder today, but part of the type): first, last, one past the
+    // end, far past the end
+    if cap > 0 {
+        for idx in [0usize, m.len().saturating_sub(1), m.len(), m.len() + 1, cap] {
+            let want = m.get(idx).copied();
+            let got = r.get(idx);
+            if got != want {
+                return Err(format!("{name}: get({idx}) = {got:?}, the queue holds {want:?} there (len {})", m.len()));
+            }
+        }
+    }
     Ok(())
 }
 
